@@ -152,3 +152,39 @@ Fixpoint erase_ws_aux (in_str esc : bool) (s : str) : str :=
   end.
 
 Definition erase_ws (s : str) : str := erase_ws_aux false false s.
+
+(* ---------------------------------------------------------------- vocabulary of the C05 statements *)
+Definition all_ws (s : str) : Prop := forallb is_ws s = true.
+
+(* optional whitespace, the separator character, optional whitespace *)
+Definition sep_shape (c : N) (s : str) : Prop :=
+  exists w1 w2, s = w1 ++ c :: w2 /\ all_ws w1 /\ all_ws w2.
+
+Definition bracket_shape (o c : N) (e : option str) : Prop :=
+  match e with
+  | None => True
+  | Some s => exists w, s = o :: w ++ [c] /\ all_ws w
+  end.
+
+(* a format whose pieces are JSON whitespace around the structural characters *)
+Record ws_format (fmt : json_format) : Prop := {
+  wf_indent : all_ws (indent fmt);
+  wf_newline : all_ws (newline fmt);
+  wf_kvs : sep_shape 58 (key_val_sep fmt);
+  wf_item : sep_shape 44 (item_sep fmt);
+  wf_ea : bracket_shape 91 93 (empty_array fmt);
+  wf_eo : bracket_shape 123 125 (empty_object fmt);
+}.
+
+(* a genuine finite double: finite, and the decoding of its own 64-bit pattern *)
+Definition num_ok (x : f64) : Prop := f_is_finite x = true /\ f_of_bits (f_to_bits x) = x.
+
+Fixpoint nums_of (v : jvalue) : list f64 :=
+  match v with
+  | JNum x => [x]
+  | JArr items => flat_map nums_of items
+  | JObj members => flat_map (fun kv => nums_of (snd kv)) members
+  | _ => []
+  end.
+
+Definition finite_nums (v : jvalue) : Prop := Forall num_ok (nums_of v).
